@@ -1,6 +1,7 @@
 package main
 
 import (
+	"runtime/debug"
 	"fmt"
 	"os"
 	"go/token"
@@ -66,7 +67,7 @@ func ghostType(name string) types.Type {
 }
 
 // verifyFunction generates all obligations of one function under its contract.
-func verifyFunction(prog *Program, fn *ssa.Function, ctr *Contract, opts VerifyOpts) *FuncResult {
+func verifyFunction(prog *Program, fn *ssa.Function, ctr *Contract, opts VerifyOpts) (res *FuncResult) {
 	ghostProg = prog
 	x := NewExec(prog)
 	x.topFn = fn
@@ -75,10 +76,10 @@ func verifyFunction(prog *Program, fn *ssa.Function, ctr *Contract, opts VerifyO
 	x.safetyTag = opts.SafetyTags
 	x.wantLiveness = opts.Liveness
 	x.livenessTag = []string{"C20"}
-	res := &FuncResult{Fn: fn, Key: prog.funcKey(fn), Exec: x}
+	res = &FuncResult{Fn: fn, Key: prog.funcKey(fn), Exec: x}
 	defer func() {
 		if r := recover(); r != nil {
-			x.unsupported("engine panic: %v", r)
+			x.unsupported("engine panic: %v\n%s", r, debug.Stack())
 			res.Obls, res.Warnings, res.Unsupp = x.obls, x.warnings, x.unsupp
 		}
 	}()
@@ -179,6 +180,11 @@ func (x *Exec) checkEnsures(fr *Frame, st *State, rs []Val, ret *ssa.Return) {
 	if len(rs) == 1 {
 		env["result"] = rs[0]
 	}
+	for i := range rs {
+		if _, ok := env[fmt.Sprintf("result%d", i)]; !ok {
+			env[fmt.Sprintf("result%d", i)] = rs[i] // positional names always work
+		}
+	}
 	for _, c := range ctr.Clauses {
 		if c.Kind == "ghostset" && !c.Spawn {
 			full := map[string]Val{}
@@ -188,6 +194,7 @@ func (x *Exec) checkEnsures(fr *Frame, st *State, rs []Val, ret *ssa.Return) {
 			for k, v := range env {
 				full[k] = v
 			}
+			x.aliasEnv(fr.fn, full) // named results that were renamed since the contract was written
 			var pkg *types.Package
 			if fr.fn.Pkg != nil {
 				pkg = fr.fn.Pkg.Pkg
@@ -298,9 +305,9 @@ func (x *Exec) checkFrame(fr *Frame, st *State, ret *ssa.Return) {
 				if isInterface(ov.T) {
 					base = app("iref", ov.L[0])
 				}
-				allow = append(allow, allowed{prefix: tgt[7:k], base: base})
+				allow = append(allow, allowed{prefix: x.prog.fixRegion(tgt[7:k]), base: base})
 			case strings.HasPrefix(tgt, "region(") && strings.HasSuffix(tgt, ")"):
-				allow = append(allow, allowed{prefix: tgt[7 : len(tgt)-1]})
+				allow = append(allow, allowed{prefix: x.prog.fixRegion(tgt[7 : len(tgt)-1])})
 			case strings.HasPrefix(tgt, "pointees("):
 				return
 			default:
@@ -660,9 +667,9 @@ func (c *scanCtx) contractEffects(ctr *Contract, sig *types.Signature, isGo bool
 			case strings.HasPrefix(tgt, "#"):
 				c.out.ghosts[tgt[1:]] = true
 			case strings.HasPrefix(tgt, "region(") && strings.Contains(tgt, ") at "):
-				c.out.whole[tgt[7:strings.Index(tgt, ") at ")]] = true
+				c.out.whole[c.x.prog.fixRegion(tgt[7:strings.Index(tgt, ") at ")])] = true
 			case strings.HasPrefix(tgt, "region("):
-				c.out.whole[tgt[7:len(tgt)-1]] = true
+				c.out.whole[c.x.prog.fixRegion(tgt[7:len(tgt)-1])] = true
 			case strings.HasPrefix(tgt, "pointees("):
 				c.out.all = true
 			default:
